@@ -388,6 +388,102 @@ fn random(a: &Args) {
     out.finish();
 }
 
+/// big out=<json> seed=N thorough=0|1 : realistic sizes (m up to 4096, streams up to 1e5 / 1e6 items, with repeats,
+/// chunking and - for SetSketch - a merge of two halves); the Layer-A function (join of measured single-item tables)
+/// is evaluated harness-side because the traces are too large for TLC.  Same verdict level as the traces: public sketch.
+fn big(a: &Args) {
+    silence_panics();
+    let seed = a.u64_or("seed", 1);
+    let thorough = a.u64_or("thorough", 0) == 1;
+    let mut plan: Vec<(&str, usize, usize)> = vec![
+        ("ss_u16", 4096, 60000), ("ss_u32", 1024, 20000), ("ss_u16", 256, 100000), ("smh_f64_fnv", 1024, 5000), ("smh_f32_fnv", 4096, 50),
+        ("smh2_u64_fnv", 1024, 5000), ("smh2_u32_xx", 256, 3000), ("pmh3", 1024, 3000), ("pmh2", 512, 2000), ("pmh3a", 1024, 3000),
+        ("ss_u32", 4096, 7), ("smh_f64_no", 2048, 3),
+    ];
+    if thorough {
+        plan.push(("ss_u16", 4096, 1000000));
+        plan.push(("ss_u32", 4096, 300000));
+        plan.push(("smh_f64_fnv", 4096, 100000));
+        plan.push(("smh2_u64_fnv", 4096, 100000));
+        plan.push(("pmh3", 4096, 50000));
+        plan.push(("pmh3asha", 1024, 20000));
+    }
+    use rayon::prelude::*;
+    let cases: Vec<Value> = plan
+        .par_iter()
+        .enumerate()
+        .map(|(ci, (kind, m, n))| {
+            let mut rng = rng_from(seed, 606 + ci as u64);
+            let is_pmh = kind.starts_with("pmh");
+            let cfg = Cfg {
+                kind: kind.to_string(),
+                m: *m,
+                ss: if kind.starts_with("ss_") { Some(SsParams { b: 1.001, m: *m as u64, a: 20.0, q: if *kind == "ss_u16" { 65534 } else { 100000 } }) } else { None },
+            };
+            let items: Vec<Item> = (0..*n).map(|_| Item { id: rng.random::<u64>() >> 1, w: if is_pmh { weight(2, &mut rng) } else { 1.0 } }).collect();
+            let res = catch(|| {
+                // expected: join of single-item tables
+                let min = is_min(kind);
+                let mut exp: Vec<u128> = vec![init_key(&cfg); *m];
+                let mut who: Vec<u64> = vec![0; *m];
+                for it in &items {
+                    let mut one = make(&cfg);
+                    one.sketch(it);
+                    let r = one.regs();
+                    let sg = one.sig();
+                    for p in 0..*m {
+                        let better = if min { r[p] < exp[p] } else { r[p] > exp[p] };
+                        if better {
+                            exp[p] = r[p];
+                            if let Some(s) = &sg {
+                                who[p] = s[p];
+                            }
+                        }
+                    }
+                }
+                // actual: repeats, chunking, and a merge of two halves where the sketcher has one
+                let mut sk = make(&cfg);
+                let mut other = make(&cfg);
+                let half = items.len() / 2;
+                let mut i = 0;
+                while i < items.len() {
+                    let len = (1 + rng.random_range(0..50)).min(items.len() - i);
+                    let chunk = &items[i..i + len];
+                    let target: &mut Box<dyn Sk> = if kind.starts_with("ss_") && i >= half { &mut other } else { &mut sk };
+                    let ents = target.entries();
+                    target.batch(chunk, ents[rng.random_range(0..ents.len())]);
+                    if rng.random_range(0..4) == 0 {
+                        target.batch(&chunk[..1], ents[0]); // a repeat
+                    }
+                    i += len;
+                }
+                if kind.starts_with("ss_") {
+                    sk.merge(other.as_ref());
+                }
+                let got = sk.regs();
+                let gsig = sk.sig();
+                let mut bad = 0usize;
+                let mut first: Option<usize> = None;
+                for p in 0..*m {
+                    let ok = if sk.regs_public() { got[p] == exp[p] } else { gsig.as_ref().map(|g| g[p] == who[p]).unwrap_or(true) };
+                    if !ok {
+                        bad += 1;
+                        if first.is_none() {
+                            first = Some(p);
+                        }
+                    }
+                }
+                (bad, first)
+            });
+            match res {
+                Ok((bad, first)) => json!({"kind": kind, "m": m, "n": n, "bad_positions": bad, "first": first, "panic": Value::Null}),
+                Err(msg) => json!({"kind": kind, "m": m, "n": n, "bad_positions": 0, "first": Value::Null, "panic": msg}),
+            }
+        })
+        .collect();
+    write_json(&a.str("out"), &json!({"cases": cases}));
+}
+
 fn main() {
     let argv: Vec<String> = std::env::args().collect();
     if argv.len() < 2 {
@@ -397,6 +493,7 @@ fn main() {
     match argv[1].as_str() {
         "replay" => replay(&a),
         "random" => random(&a),
+        "big" => big(&a),
         other => tool_error(&format!("unknown subcommand {}", other)),
     }
 }
